@@ -481,6 +481,9 @@ func (ex *Exec) typOf(v Val) types.Type {
 		if x.IsString {
 			return types.Typ[types.String]
 		}
+		if x.Named != nil {
+			return x.Named
+		}
 		return types.NewSlice(x.Elem)
 	case RefPtr:
 		if x.Elem != nil {
